@@ -198,3 +198,6 @@ func RecvNow2[T any](ch <-chan T) (T, bool) {
 	v, ok := <-ch
 	return v, ok
 }
+
+// SelectAborted is the panic value of a select statement interrupted by teardown.
+func SelectAborted() any { return abortT{} }
